@@ -247,6 +247,36 @@ func TestC19(t *testing.T) {
 				break
 			}
 		}
+		// a message that reaches the push subscription through dead-letter forwarding keeps its id,
+		// payload, attributes and original publish time in the envelope
+		if len(st.Violations) == 0 {
+			w.Exec(Op{K: "create_topic", Topic: "src"})
+			w.Exec(Op{K: "create_sub", Sub: "srcsub", Cfg: &SubCfg{Topic: "src", TTL: 24 * 3600 * Sec, MTTL: 3600 * Sec, MaxAtt: 1, DLT: "t"}})
+			fspec := MsgSpec{N: 9000, Payload: `{"n":9000,"forwarded":true}`, Attrs: map[string]string{"via": "dlq"}}
+			fres := w.Exec(Op{K: "publish", Topic: "src", Msgs: []MsgSpec{fspec}})
+			time.Sleep(700 * time.Millisecond)
+			w.Exec(Op{K: "pull", Sub: "srcsub", Max: 1})
+			time.Sleep(300 * time.Millisecond)
+			w.Exec(Op{K: "nack", Refs: []Ref{{N: 9000, Sub: "srcsub"}}})
+			if len(fres.MsgIDs) == 1 {
+				fmsg := w.Client.Message.GetX(w.Ctx, fres.MsgIDs[0])
+				if freq := next(); freq == nil {
+					violate("not-pushed", "a message forwarded into the topic by dead-lettering was not pushed", "forwarded")
+				} else {
+					data, derr := base64.StdEncoding.DecodeString(freq.body.Message.Data)
+					pt, _ := time.Parse(time.RFC3339Nano, freq.body.Message.PublishTime)
+					if derr != nil || !jsonEqual(string(data), fspec.Payload) || !attrsEqual(freq.body.Message.Attributes, fspec.Attrs) ||
+						freq.body.Message.MessageID != fmsg.ID.String() || !pt.Equal(fmsg.PublishedAt) {
+						violate("envelope", fmt.Sprintf("push envelope of a dead-letter-forwarded message is not faithful: %+v (message id %s published at %v, payload %s attrs %v)", freq.body, fmsg.ID, fmsg.PublishedAt, fspec.Payload, fspec.Attrs), fmt.Sprintf("%+v", freq.body))
+					}
+					st.Count("envelopes_checked", 1)
+					freq.respond <- pushResp{code: 204}
+					synctest.Wait()
+					batches = append(batches, "f1")
+					trajectory = append(trajectory, pusher.CurrentFlowControl().MaxMessages)
+				}
+			}
+		}
 		// burst: many messages at once — concurrent pushes must stay within the window
 		var burst []MsgSpec
 		for i := 0; i < 40; i++ {
